@@ -596,6 +596,12 @@ func (g *G) strategy(p string) (*ye.Node, []string) {
 			m.Set("include", leaf("${{ fromJSON(github.event.client_payload.include) }}", p+".strategy.matrix.include", av, Leaf{Template: true, Typed: "arr", Config: "include-as-expression"}))
 			keys = nil
 		}
+		if includeOnly && m.Get("include") != nil && m.Get("include").Kind == ye.Seq && g.b("mexcincludeonly") {
+			// every variation comes from include; exclude refers to the keys defined there
+			exc := ye.M()
+			exc.Set("os", leaf("windows-latest", p+".strategy.matrix.exclude.<key>", av, Leaf{Template: true, Config: "include-only-matrix"}))
+			m.Set("exclude", ye.L(exc))
+		}
 		if !includeOnly && g.b("mexc") {
 			if g.b("mexcexpr") {
 				m.Set("exclude", leaf("${{ fromJSON(github.event.client_payload.exclude) }}", p+".strategy.matrix.exclude", av, Leaf{Template: true, Typed: "arr", Config: "exclude-as-expression"}))
